@@ -301,18 +301,18 @@ def main(run):
                               rerun=(lambda s=script, en=en, pre=pre: run_script(s, en, pre))))
         for what, c, m in run.differential(cases):
             run.violation(what, {"call": c["cmd"][:4000], "implementation": c["impl"][:3000], "model": m[:3000]})
-        if not run.violations:
+        if not run.concrete():
             for _ in range(2 if not run.thorough else 15):
                 concurrent(run, rng)
-                if run.violations:
+                if run.concrete():
                     break
             for _ in range(2 if not run.thorough else 12):
-                if run.violations:
+                if run.concrete():
                     break
                 enable_while_streaming(run, rng)
         # pl14: the C08_*_src theorems are about the interpreted _recv_thread / stream_data / _stream_thread:
         # PyLite's reading of these methods against CPython (scripted link, stub queues, and real queue.Queue handles)
-        if not run.violations:
+        if not run.concrete():
             run.pylite(["recvpath", "streamthread"])
     else:
         run.proof_ok = False
